@@ -171,7 +171,7 @@ PROPERTIES = {
                        'vcmp = Lt iff the inductive SemVer-11 relation, stable sort / max / min consistent with it',
     },
     'C01': {
-        'families': [{'name': 'npm', 'gen': FR.gen_npm, 'eval': FR.eval_npm}],
+        'families': [{'name': 'npm', 'gen': FR.gen_npm, 'eval': FR.eval_npm}, {'name': 'rtext', 'gen': FR.gen_rtext, 'eval': FR.eval_rtext}],
         'rule': 'npm family: exhaustive desugaring-table sweep, hyphen ranges, conjunctions, multi-alternative ranges, each rendered canonically and with loose spellings, evaluated on the induced version universe; '
                 'the crate answer is compared with npm_admits (Coq specification, extracted) and with an independent Python reading; the parsed structure is compared with what the tables give for the syntax tree; '
                 'non-trivial = texts that admit at least one probed version',
